@@ -5,6 +5,10 @@ package c17
 //   restart  the app instance is dropped and re-opened on the same database (a node restart) before every block of a
 //            seeded subset of heights ("restart-all": before every block), so whatever lives only in process memory
 //            (package-level variables, keeper-level caches) is lost there and kept by the other replicas;
+//   statesync  before a seeded subset of blocks the node is replaced by one that was STATE-SYNCED from it: a snapshot of the
+//            committed state is taken through the SDK snapshot manager (what a node serves to its peers) and restored,
+//            chunk by chunk, into a fresh application on an empty database (what a joining node does); the new node has
+//            nothing but the snapshot — no process memory, no pruned-but-still-cached versions, no transient leftovers;
 //   sim      between blocks the instance serves what a node serves besides block execution: CheckTx of the coming
 //            transactions (also of the block after, where they mostly fail), tx simulations, the injected messages on a
 //            discarded branch, gRPC queries — all of which may fill process memory but never consensus state.
@@ -23,6 +27,8 @@ import (
 	"time"
 
 	"cosmossdk.io/log"
+	"cosmossdk.io/store/snapshots"
+	snapshottypes "cosmossdk.io/store/snapshots/types"
 	storetypes "cosmossdk.io/store/types"
 	abci "github.com/cometbft/cometbft/abci/types"
 	tmproto "github.com/cometbft/cometbft/proto/tendermint/types"
@@ -53,6 +59,7 @@ type node struct {
 	dir     string
 	name    string
 	stats   map[string]int
+	syncs   int
 }
 
 func openDB(backend, dir, name string) (dbm.DB, error) {
@@ -62,21 +69,99 @@ func openDB(backend, dir, name string) (dbm.DB, error) {
 	return dbm.NewMemDB(), nil
 }
 
-func newApp(gd *detx.GenesisDoc, db dbm.DB) *app.App {
+func newApp(gd *detx.GenesisDoc, db dbm.DB, more ...func(*baseapp.BaseApp)) *app.App {
 	opts := viper.New()
 	opts.Set(flags.FlagChainID, gd.ChainID)
-	return app.New(log.NewNopLogger(), db, nil, true, map[int64]bool{}, fxtypes.GetDefaultNodeHome(), opts, baseapp.SetChainID(gd.ChainID))
+	return app.New(log.NewNopLogger(), db, nil, true, map[int64]bool{}, fxtypes.GetDefaultNodeHome(), opts, append([]func(*baseapp.BaseApp){baseapp.SetChainID(gd.ChainID)}, more...)...)
+}
+
+// snapshotOption gives the application a snapshot manager (interval 0: snapshots are only taken on request).
+func snapshotOption(dir, name string) (func(*baseapp.BaseApp), error) {
+	sdir := filepath.Join(dir, "snapshots-"+name)
+	if err := os.MkdirAll(sdir, 0o755); err != nil {
+		return nil, err
+	}
+	st, err := snapshots.NewStore(dbm.NewMemDB(), sdir)
+	if err != nil {
+		return nil, err
+	}
+	return baseapp.SetSnapshot(st, snapshottypes.NewSnapshotOptions(0, 2)), nil
+}
+
+// stateSync replaces the node by one restored from a snapshot of its committed state on an empty database.
+func (n *node) stateSync() error {
+	if n.c.Height < 1 {
+		return nil
+	}
+	src := n.c.App.SnapshotManager()
+	if src == nil {
+		return fmt.Errorf("statesync: the node has no snapshot manager")
+	}
+	snap, err := src.Create(uint64(n.c.Height))
+	if err != nil {
+		return fmt.Errorf("statesync: create snapshot at %d: %w", n.c.Height, err)
+	}
+	n.syncs++
+	name := fmt.Sprintf("%s-sync%d", n.name, n.syncs)
+	db, err := openDB(n.backend, n.dir, name)
+	if err != nil {
+		return err
+	}
+	opt, err := snapshotOption(n.dir, name)
+	if err != nil {
+		return err
+	}
+	a := newApp(n.gd, db, opt)
+	if err = a.SnapshotManager().Restore(*snap); err != nil {
+		return fmt.Errorf("statesync: offer snapshot: %w", err)
+	}
+	for i := uint32(0); i < snap.Chunks; i++ {
+		chunk, err := src.LoadChunk(snap.Height, snap.Format, i)
+		if err != nil {
+			return fmt.Errorf("statesync: load chunk %d: %w", i, err)
+		}
+		done, err := a.SnapshotManager().RestoreChunk(chunk)
+		if err != nil {
+			return fmt.Errorf("statesync: restore chunk %d: %w", i, err)
+		}
+		if done {
+			break
+		}
+	}
+	if a.LastBlockHeight() != n.c.Height {
+		return fmt.Errorf("statesync: height %d after restore, expected %d", a.LastBlockHeight(), n.c.Height)
+	}
+	if cid := a.LastCommitID(); !bytes.Equal(cid.Hash, n.c.AppHash) {
+		return fmt.Errorf("statesync: app hash %x after restore, expected %x", cid.Hash, n.c.AppHash)
+	}
+	_ = n.c.App.Close()
+	nc := *n.c
+	nc.App = a
+	n.c, n.db = &nc, db
+	n.stats["statesyncs"]++
+	n.stats[fmt.Sprintf("statesync-chunks:%d", min(int(snap.Chunks), 3))]++
+	hdr := tmproto.Header{ChainID: nc.ChainID, Height: nc.Height, Time: nc.Time}
+	a.CapabilityKeeper.InitMemStore(a.NewUncachedContext(false, hdr)) // as the first BeginBlock after the sync would
+	return nil
 }
 
 // newNode boots a fresh app on its own database and runs InitChain (same steps as detx.NewChainDB, but the database
 // stays reachable so that the instance can be restarted on it).
-func newNode(gd *detx.GenesisDoc, backend, dir string) (*node, error) {
+func newNode(gd *detx.GenesisDoc, backend, dir string, snap bool) (*node, error) {
 	name := fmt.Sprintf("application-%d-%d", os.Getpid(), time.Now().UnixNano())
 	db, err := openDB(backend, dir, name)
 	if err != nil {
 		return nil, err
 	}
-	a := newApp(gd, db)
+	var more []func(*baseapp.BaseApp)
+	if snap {
+		opt, err := snapshotOption(dir, name)
+		if err != nil {
+			return nil, err
+		}
+		more = append(more, opt)
+	}
+	a := newApp(gd, db, more...)
 	c := &detx.Chain{App: a, ChainID: gd.ChainID, Genesis: time.Unix(gd.TimeUnix, 0).UTC()}
 	for _, v := range gd.Vals {
 		pk, _ := hex.DecodeString(v.ConsPubKey)
@@ -347,7 +432,7 @@ func obsLine(o detx.Obs) string {
 
 // replayMode executes a history on a fresh node in the given mode and returns the observation lines.
 func replayMode(h *detx.History, mode, backend, dir string, rseed int64) ([]string, map[string]int, error) {
-	n, err := newNode(h.Genesis, backend, dir)
+	n, err := newNode(h.Genesis, backend, dir, strings.HasPrefix(mode, "statesync"))
 	if err != nil {
 		return nil, nil, err
 	}
@@ -371,6 +456,12 @@ func replayMode(h *detx.History, mode, backend, dir string, rseed int64) ([]stri
 				next = &h.Blocks[i+1]
 			}
 			n.serve(b, next, rng)
+		case "statesync", "statesync-all":
+			if mode == "statesync-all" || i == 1 || rng.Intn(4) == 0 {
+				if err = n.stateSync(); err != nil {
+					return lines, n.stats, err
+				}
+			}
 		case "sim-restart":
 			if rng.Intn(4) == 0 {
 				if err = n.restart(); err != nil {
